@@ -132,8 +132,13 @@ def norm_key(law, dx, dy, exy, eyx, hx, hy):
 
 def run(ctx):
     quick = ctx.quick
+
+    def _t(what):
+        if os.environ.get('VERIF_DEBUG'):
+            print(f'[C11] {what}: t={ctx.elapsed():.1f}s', flush=True)
     # 1. design-level check of the specification
     mcr = ctx.mc('MC_ExprEq', 'MC_ExprEq', timeout=1500, coverage=False, workers=2)
+    _t('mc')
     # 2. TLC enumerates the universe
     r = ctx.tlc('Gen_ExprEq', 'Gen_ExprEq', timeout=600)
     descs = [json.loads(v[1]) for v in r.prints('NODE')]
@@ -148,15 +153,18 @@ def run(ctx):
             raise MachineryError('replayed descriptors are not part of the specified universe')
     else:
         rows = list(range(len(descs)))
+    _t('universe')
     # 3. real nodes, recorded relation
     nodes, eq, hcls, raised = record(descs)
     upath = os.path.join(ctx.work, 'universe.json')
     with open(upath, 'w') as fh:
         json.dump({'nodes': descs, 'eq': eq, 'hash': hcls}, fh)
+    _t('recorded')
     # 4. TLC evaluates each law on each row
     cases = [{'x': i + 1, 'law': law} for i in rows for law in LAWS]
     verdicts = ctx.validate('Trace_ExprEq', 'Trace_ExprEq', cases, extra_env={'UNIVERSE': upath},
                             shards=8 if quick else 12, timeout=1500)
+    _t('validated')
     nviol = 0
     per_law = {law: 0 for law in LAWS}
     for ci, c in enumerate(cases):
@@ -202,3 +210,29 @@ def run(ctx):
         'symbols are unscoped and typed as the frontends type them (REAL scalars/arrays, derived-type parents, '
         'procedure types, deferred kinds)',
     ]
+
+
+def selftest(ctx):
+    """Binding demonstration: corrupt single fields of the recorded relation; TLC must name the law."""
+    r = ctx.tlc('Gen_ExprEq', 'Gen_ExprEq', timeout=600)
+    descs = [json.loads(v[1]) for v in r.prints('NODE')]
+    _, eq, hcls, _ = record(descs)
+    ix = {json.dumps(d, sort_keys=True): i for i, d in enumerate(descs)}
+    sc = lambda n: {'k': 'scalar', 'n': n, 'c': []}   # noqa: E731
+    n_, N_, m_ = (ix[json.dumps(sc(v), sort_keys=True)] for v in ('n', 'N', 'm'))
+    failures = []
+    for name, law, row, mutate in (
+            ('flip eq[n][m]', 'Symmetric', n_, lambda e, h: e[n_].__setitem__(m_, 1)),
+            ('new hash class for N', 'HashConsistent', n_, lambda e, h: h.__setitem__(N_, max(h) + 1)),
+            ('n != N', 'CaseInsensitive', n_, lambda e, h: e[n_].__setitem__(N_, 0))):
+        e2, h2 = [list(r_) for r_ in eq], list(hcls)
+        mutate(e2, h2)
+        upath = os.path.join(ctx.work, 'universe_selftest.json')
+        with open(upath, 'w') as fh:
+            json.dump({'nodes': descs, 'eq': e2, 'hash': h2}, fh)
+        v = ctx.validate('Trace_ExprEq', 'Trace_ExprEq', [{'x': row + 1, 'law': law}], extra_env={'UNIVERSE': upath})
+        print(f'selftest {name}: verdict {v[0]}')
+        if v[0][0] or not v[0][1].startswith(law):
+            failures.append(name)
+    print('SELFTEST', 'FAILED ' + str(failures) if failures else 'OK')
+    return 2 if failures else 0
